@@ -107,8 +107,11 @@ structure Valid.OK {src : Source} {p : Program} (V : Valid src p) : Prop where
   head : ∃ cnt tgt, p.code[0]? = some (.prepare cnt (src.progs.length : Int) tgt)
   skips : Skips p.code 1 (V.start src.progs.length)
 
-theorem valid_of_shapeCheck {src : Source} {p : Program} (h : shapeCheck src p = true) :
-    ∃ V : Valid src p, V.OK := by
+/-- `valid_of_shapeCheck` together with the traversal it was read off from -/
+theorem valid_of_shapeCheck_strong {src : Source} {p : Program} (h : shapeCheck src p = true) :
+    ∃ V : Valid src p, V.OK ∧
+      checkProgs p src src.progs 0 [] 1 = some (V.infos, V.start src.progs.length) ∧
+      (V.ri src.progs.length).entry = 0 := by
   unfold shapeCheck at h
   split at h
   · rename_i cnt mi tgt crest hcode
@@ -140,7 +143,13 @@ theorem valid_of_shapeCheck {src : Source} {p : Program} (h : shapeCheck src p =
             rw [g1, ← List.map_take]
             exact q2
           have hlen : infosF.length = src.progs.length := by rw [g1, List.length_map, g2]
-          refine ⟨V, ?_⟩
+          refine ⟨V, ?_, ?_, ?_⟩
+          rotate_left
+          · show checkProgs p src src.progs 0 [] 1 = some (infosF, match more[src.progs.length]? with
+                | some rg => rg.1.entry | none => pcM)
+            rw [hnone]; exact hprogs
+          · show (match more[src.progs.length]? with | some rg => rg.1 | none => riR).entry = 0
+            rw [hnone]
           refine
             { len := hlen
               info := ?_, mi := ?_, entry := ?_, regs := ?_, nodup := ?_, chk := ?_, res := ?_,
@@ -230,3 +239,8 @@ theorem valid_of_shapeCheck {src : Source} {p : Program} (h : shapeCheck src p =
       · cases h
     · cases h
   · cases h
+
+theorem valid_of_shapeCheck {src : Source} {p : Program} (h : shapeCheck src p = true) :
+    ∃ V : Valid src p, V.OK := by
+  obtain ⟨V, hV, _⟩ := valid_of_shapeCheck_strong h
+  exact ⟨V, hV⟩
